@@ -171,6 +171,11 @@ fn gen_struct(rng: &mut Rng, n: &mut Names) -> Decl {
         };
         fields.push_str(&format!("    f{i} : {t}{init};\n"));
     }
+    if !n.enums.is_empty() && rng.chance(1, 3) {
+        // an element that is an array of a named enumeration, initialised with its values
+        let (e, vals) = rng.pick(&n.enums).clone();
+        fields.push_str(&format!("    lim : ARRAY [1..2] OF {} := [{}, {}];\n", respell(rng, &e), vals[0], respell(rng, &vals[1])));
+    }
     let text = format!("TYPE\n  {name} : STRUCT\n{fields}  END_STRUCT;\nEND_TYPE\n");
     n.structs.push(name.clone());
     decl("struct", &name, text)
@@ -382,6 +387,7 @@ pub const FAULT_KINDS: &[&str] = &[
     "syntax_type",
     "syntax_stmt",
     "syntax_var",
+    "syntax_long_string",
     "struct_dup_elem",
     "subrange_order",
     "enum_dup_value",
@@ -467,6 +473,17 @@ pub fn gen_faulty(rng: &mut Rng, size: usize, kind: &str) -> World {
             &mut decls,
             decl("fault", &format!("Pr{k}"), format!("PROGRAM Pr{k}\n  VAR\n    cnt INT;\n  END_VAR\nEND_PROGRAM\n")),
         ),
+        "syntax_long_string" => {
+            // a missing operator in front of a long string literal of multi-byte characters (all of
+            // them in the Windows-1252 repertoire): the message quotes what was found, at every
+            // alignment of the character boundaries
+            let ch = *rng.pick(&["ä", "é", "€", "ß"]);
+            let lit = format!("{}{}", "x".repeat(rng.below(4)), ch.repeat(rng.range(90, 140)));
+            push(
+                &mut decls,
+                decl("fault", &format!("Fb{k}"), format!("FUNCTION_BLOCK Fb{k}\n  VAR\n    name : STRING;\n  END_VAR\n  name := 'a' '{lit}';\nEND_FUNCTION_BLOCK\n")),
+            );
+        }
         "struct_dup_elem" => push(
             &mut decls,
             decl("fault", &format!("St{k}"), format!("TYPE\n  St{k} : STRUCT\n    f0 : INT;\n    F0 : BOOL;\n  END_STRUCT;\nEND_TYPE\n")),
